@@ -27,6 +27,9 @@ pub struct Case {
     /// deliver through the single-session `Receiver::push_data` instead of `MultiReceiver::push`
     #[serde(default)]
     pub direct: bool,
+    /// deliver into flute's own ObjectWriterBufferBuilder (its objects are inspected afterwards)
+    #[serde(default)]
+    pub buf: bool,
 }
 
 fn rx_config(case: &Case) -> flute::receiver::Config {
@@ -262,6 +265,38 @@ pub fn run_case(case: &Case) -> (Vec<Violation>, Guards) {
             g.delivered += accepted.len() as u64;
             return Ok(());
         }
+        if case.buf {
+            let b = Rc::new(flute::receiver::writer::ObjectWriterBufferBuilder::new(true));
+            let mut rx = MultiReceiver::new(b.clone(), Some(rx_config(case)), false);
+            for (t, p) in &pkts {
+                if let Err(e) = rx.push(&endpoint(), p, *t) {
+                    return Err((format!("C01/push-error/{:?}/buffer-writer", case.sess.oti.scheme), format!("push returned {:?}", e.0.to_string())));
+                }
+            }
+            drop(rx);
+            let objs = b.objects.borrow();
+            for (_toi, i, _) in &accepted {
+                let o = &case.objs[*i];
+                let loc = url::Url::parse(&o.location).unwrap().to_string();
+                let mine: Vec<_> = objs.iter().filter(|x| x.borrow().meta.content_location == loc).collect();
+                let good = mine.iter().filter(|x| { let x = x.borrow(); x.complete && !x.error && x.data == o.content() }).count();
+                let want = if case.receive_once { 1 } else { o.count.max(1) as usize };
+                let nocache_repeat = case.receive_once && o.count > 1 && o.cache == Some(Cache::NoCache);
+                if nocache_repeat && good == mine.len() && good >= 1 && good <= o.count as usize {
+                    continue;
+                }
+                if good != want || mine.len() != want {
+                    // the known finding of the monitoring-writer path (DESIGN section 9), seen through this writer
+                    let obt_repeat = !case.sess.full_fdt && case.receive_once && o.count > 1 && case.objs.len() > 1 && mine.len() > want && good == mine.len();
+                    return Err((
+                        if obt_repeat { "C01/writer-count/obt-mode-repeated-transfer-after-other-object".to_string() } else { format!("C01/buffer-writer/{}", class_of(case, o)) },
+                        format!("flute's ObjectWriterBuffer holds {} object(s) for {} of which {} complete, error-free and byte-exact; expected {}", mine.len(), loc, good, want),
+                    ));
+                }
+            }
+            g.delivered += accepted.len() as u64;
+            return Ok(());
+        }
         let mon = Mon::new(true);
         let (results, panic) = if case.direct { deliver_direct(&mon, rx_config(case), if case.sess.tsi == 0 { TSI } else { case.sess.tsi }, &pkts) } else { deliver(&mon, rx_config(case), &pkts) };
         if let Some(p) = panic {
@@ -422,7 +457,7 @@ fn core_grid(thorough: bool) -> Vec<Case> {
                                 if len % 2 == 0 && e >= 4 {
                                     s.oti = OtiSpec::new(scheme, 64, 8, parity.max(if scheme == Scheme::NoCode { 0 } else { 1 }), true);
                                 }
-                                v.push(Case { sess: s, objs: vec![o], receive_once: true, fs: false, rx_variant: 0, direct: false });
+                                v.push(Case { sess: s, objs: vec![o], receive_once: true, fs: false, rx_variant: 0, direct: false, buf: false });
                             }
                         }
                     }
@@ -447,7 +482,7 @@ fn core_grid(thorough: bool) -> Vec<Case> {
                             o.oti = Some(oti);
                             o.md5 = md5;
                             let s = SessSpec::basic(OtiSpec::new(Scheme::NoCode, 1424, 64, 0, true));
-                            v.push(Case { sess: s, objs: vec![o], receive_once: true, fs: false, rx_variant: 0, direct: false });
+                            v.push(Case { sess: s, objs: vec![o], receive_once: true, fs: false, rx_variant: 0, direct: false, buf: false });
                         }
                     }
                 }
@@ -463,7 +498,7 @@ fn core_grid(thorough: bool) -> Vec<Case> {
                     let mut o = ObjSpec::simple(len, 5);
                     o.oti = Some(OtiSpec::new(scheme, 1, b, parity, inband_fti));
                     let s = SessSpec::basic(OtiSpec::new(Scheme::NoCode, 1424, 64, 0, true));
-                    v.push(Case { sess: s, objs: vec![o], receive_once: true, fs: false, rx_variant: 0, direct: false });
+                    v.push(Case { sess: s, objs: vec![o], receive_once: true, fs: false, rx_variant: 0, direct: false, buf: false });
                 }
             }
         }
@@ -478,7 +513,7 @@ fn core_grid(thorough: bool) -> Vec<Case> {
                 let mut o = ObjSpec::simple(len, 3);
                 o.oti = Some(OtiSpec::new(scheme, e, b, if scheme == Scheme::NoCode { 0 } else { 1 }, inband_fti));
                 let s = SessSpec::basic(OtiSpec::new(Scheme::NoCode, 1424, 64, 0, true));
-                v.push(Case { sess: s, objs: vec![o], receive_once: true, fs: false, rx_variant: 0, direct: false });
+                v.push(Case { sess: s, objs: vec![o], receive_once: true, fs: false, rx_variant: 0, direct: false, buf: false });
             }
         }
         // around the scheme's maximum transfer length, smallest (E, B)
@@ -490,7 +525,7 @@ fn core_grid(thorough: bool) -> Vec<Case> {
                 let mut o = ObjSpec::simple(len as usize, 2);
                 o.oti = Some(oti.clone());
                 let s = SessSpec::basic(OtiSpec::new(Scheme::NoCode, 1424, 64, 0, true));
-                v.push(Case { sess: s, objs: vec![o], receive_once: true, fs: false, rx_variant: 0, direct: false });
+                v.push(Case { sess: s, objs: vec![o], receive_once: true, fs: false, rx_variant: 0, direct: false, buf: false });
             }
         }
     }
@@ -521,7 +556,7 @@ fn session_grid(thorough: bool) -> Vec<Case> {
                 o.location = format!("file:///refused/obj{}.bin", j);
                 objs.push(o);
             }
-            v.push(Case { sess: s, objs, receive_once: true, fs: false, rx_variant: 0, direct: false });
+            v.push(Case { sess: s, objs, receive_once: true, fs: false, rx_variant: 0, direct: false, buf: false });
         }
     }
     // flute's own default sender configuration, untouched
@@ -535,7 +570,7 @@ fn session_grid(thorough: bool) -> Vec<Case> {
             o.location = format!("file:///default/obj{}.bin", j);
             objs.push(o);
         }
-        v.push(Case { sess: s, objs, receive_once: true, fs: false, rx_variant: 0, direct: false });
+        v.push(Case { sess: s, objs, receive_once: true, fs: false, rx_variant: 0, direct: false, buf: false });
     }
     // long sessions: 40 objects (more than the 10 FDT instances the receiver keeps, more than any list it
     // trims), each transferred twice, full FDT: exactly one copy each with receive-once
@@ -553,7 +588,7 @@ fn session_grid(thorough: bool) -> Vec<Case> {
                 o.location = format!("file:///long/obj{}.bin", j);
                 objs.push(o);
             }
-            v.push(Case { sess: s, objs, receive_once: once, fs: false, rx_variant: if once { 0 } else { 1 }, direct: false });
+            v.push(Case { sess: s, objs, receive_once: once, fs: false, rx_variant: if once { 0 } else { 1 }, direct: false, buf: false });
         }
     }
     let points: Vec<(OtiSpec, usize)> = vec![
@@ -612,7 +647,8 @@ fn session_grid(thorough: bool) -> Vec<Case> {
                                                 }
                                                 let rx_variant = (v.len() % 3) as u8;
                                                 let direct = !fs && v.len() % 4 == 1;
-                                                v.push(Case { sess: s, objs, receive_once: once, fs, rx_variant, direct });
+                                                let buf = !fs && !direct && v.len() % 4 == 3;
+                                                v.push(Case { sess: s, objs, receive_once: once, fs, rx_variant, direct, buf });
                                             }
                                         }
                                     }
@@ -634,7 +670,7 @@ fn session_grid(thorough: bool) -> Vec<Case> {
             o.ctype = "text/plain; charset=utf-8".into();
             o.etag = Some(format!("\"v{}\"", j));
             let s = SessSpec::basic(OtiSpec::new(Scheme::NoCode, 1424, 64, 0, true));
-            v.push(Case { sess: s, objs: vec![o], receive_once: true, fs: false, rx_variant: 0, direct: false });
+            v.push(Case { sess: s, objs: vec![o], receive_once: true, fs: false, rx_variant: 0, direct: false, buf: false });
         }
     }
     v
@@ -688,7 +724,7 @@ fn mixed_grid(thorough: bool) -> Vec<Case> {
                 }
                 let rx_variant = (v.len() % 3) as u8;
                 let direct = v.len() % 4 == 2;
-                                v.push(Case { sess: s, objs, receive_once: true, fs: false, rx_variant, direct });
+                                v.push(Case { sess: s, objs, receive_once: true, fs: false, rx_variant, direct, buf: !direct && v.len() % 4 == 0 });
             }
         }
     }
@@ -733,7 +769,7 @@ fn mixed_grid(thorough: bool) -> Vec<Case> {
                                 }
                                 let rx_variant = (v.len() % 3) as u8;
                                 let direct = v.len() % 4 == 2;
-                                v.push(Case { sess: s, objs, receive_once: true, fs: false, rx_variant, direct });
+                                v.push(Case { sess: s, objs, receive_once: true, fs: false, rx_variant, direct, buf: !direct && v.len() % 4 == 0 });
                             }
                         }
                     }
